@@ -3,20 +3,15 @@ C20 — Name/number tables are mutually inverse and internally consistent.
 Everything here is about data regenerated from /repo's sources on every run
 (LA/Gen/*), so every theorem is re-checked by the kernel whenever a table changes.
 -/
-import LA.Proofs.Tables
-import LA.Model.Tables
+import LA.Proofs.TablesRT
+import LA.Model.TablesCat
 
 namespace LA.C20
 open LA LA.MsgType LA.Tables
 
 /-- Every record type code converts to a name and back to the same number. -/
-theorem C20_type_roundtrip (t : Nat) (ht : t < 65536) : getType (typeName t) = some t := by
-  rcases typeName_cases t with h | ⟨n, h, hm⟩
-  · rw [h]; exact getType_unknownName t ht
-  · rw [h]
-    have := List.all_eq_true.mp cert_type_name_type (t, n) hm
-    simp only [beq_iff_eq] at this
-    simp [getType, this]
+theorem C20_type_roundtrip (t : Nat) (ht : t < 65536) : getType (typeName t) = some t :=
+  LA.TablesRT.type_roundtrip t ht
 
 theorem lower_upper_unknownName (t : Nat) : upper (lower (unknownName t)) = unknownName t := by
   have hd : ∀ b ∈ dec (t % 65536), toUpper (toLower b) = b := by
@@ -47,12 +42,8 @@ theorem C20_text_roundtrip (t : Nat) (ht : t < 65536) : unmarshalText (marshalTe
 
 /-- Every errno number maps to a name that maps back to it. -/
 theorem C20_errno_num_name_num :
-    ∀ n name, errnoName n = some name → errnoNum name = some n := by
-  have cert : LA.Gen.Errno.errnoToName.all (fun p => LA.Gen.Errno.numTree.find (encode p.2) == some p.1) = true := by
-    decide +kernel
-  intro n name h
-  have := List.all_eq_true.mp cert (n, name) (lookupN_mem h)
-  simpa [errnoNum] using this
+    ∀ n name, errnoName n = some name → errnoNum name = some n :=
+  LA.TablesRT.errno_num_name_num
 
 /-- Every errno name (aliases included) resolves to a number that has a name mapping back to
 that same number. -/
